@@ -711,6 +711,11 @@ class Interp:
             if isinstance(fv, OracleV):
                 if name in fv.attrs:
                     return fv.attrs[name]
+                c = st.contract
+                if c is not None and getattr(c, "oracle_metadata_may_be_absent", False):
+                    r = c.attr(self, obj, name, node)       # an arbitrary callable: partial objects, callable instances
+                    if r is not None:
+                        return r
                 if name in ("__name__", "__qualname__", "__doc__", "__module__"):
                     return V.VStr(self.lib.fun_attr(V.fid(obj), st.strs.setdefault(name, len(st.strs))))
             if isinstance(fv, FuncV):
